@@ -569,7 +569,7 @@ theorem within_of_allRules (z : Nat) (ok : Int → Bool → Nat → Bool) (hw : 
     have := List.all_eq_true.mp (List.all_eq_true.mp hw _ (lookup_mem t _ _ hv)) q hq
     rw [← eh]; exact this
 
-/-- **Lewis electron count.** For every p-block element of groups 13–17 (B…At, 24 elements), *every* charge and radical
+/-- **Lewis electron count.** For every main-group element except H and Bi (groups 1, 2, 13–18; 48 elements), *every* charge and radical
     state and every localised bond list: a hydrogen count assigned by `calc_implicit` or accepted by `check_implicit`
     gives a total valence `V` with `V + r ≤ e − q` and `e − q − V − r` even (or the bare atom `V = 0`). A table entry whose
     hydrogen count or environment is off by one can not satisfy this. -/
